@@ -678,6 +678,10 @@ class PooledJSONRPCServer(socketserver.ThreadingMixIn, SimpleJSONRPCServer):
         # Store the thread pool
         self.__request_pool = thread_pool
 
+        # Flag set once serve_forever() has been called: shutdown() blocks
+        # forever if the server has never been serving
+        self.__has_served = False
+
         # Prepare the server
         SimpleJSONRPCServer.__init__(
             self,
@@ -698,11 +702,21 @@ class PooledJSONRPCServer(socketserver.ThreadingMixIn, SimpleJSONRPCServer):
             self.process_request_thread, request, client_address
         )
 
+    def serve_forever(self, poll_interval=0.5):
+        """
+        Handle requests until shutdown
+        """
+        self.__has_served = True
+        SimpleJSONRPCServer.serve_forever(self, poll_interval)
+
     def server_close(self):
         """
         Clean up the server
         """
-        SimpleJSONRPCServer.shutdown(self)
+        if self.__has_served:
+            # Stop the serving loop (waits for it to end)
+            SimpleJSONRPCServer.shutdown(self)
+
         SimpleJSONRPCServer.server_close(self)
         self.__request_pool.stop()
 
